@@ -45,7 +45,8 @@ TRUSTED = ['program level: the translation of a generated program into the opera
            'ContextItem.parent as "next frame down" (argued in Model/Context.v, exercised by the frame dumps)',
            'category-table algebra (which_code, set_catcode): Model/Tokenizer.v of C01, regenerated tables Gen/Catcodes.v']
 ASSUMPTIONS = ['balanced histories do not push a document-level object inside a group (Context.push discards all frames then)',
-               'program level, main streams: numbers are terminated by \\relax or a blank; a control sequence \\let to a character is not redefined '
+               'program level, main streams: numbers end with \\relax, a blank, or directly at the next token (only a use of a defined '
+               'macro is not placed directly after bare digits while BARE_NUMBER_BEFORE_MACRO_OK is False); a control sequence \\let to a character is not redefined '
                'while the alias is visible (the two excluded classes are generated in the prog-ext-* streams: known findings '
                'C04-number-lookahead, C04-redefine-char-let)']
 CASE_TIMEOUT = 20
@@ -524,7 +525,9 @@ def streams(rng, tier, boost):
     for _ in range((300 if quick else 2500) * boost):
         out.append(('prog-pop-through', rand_loose(rng)))
     for _ in range(40 if quick else 200):
-        out.append(('prog-ext-lookahead', rand_lookahead(rng)))
+        out.append(('prog-bare-number', rand_bare(rng)))
+        if not BARE_NUMBER_BEFORE_MACRO_OK:
+            out.append(('prog-ext-lookahead', rand_lookahead(rng)))
         out.append(('prog-ext-charlet', rand_charlet(rng)))
         out.append(('prog-global-prefix', rand_gprefix(rng)))
     return out
@@ -861,9 +864,15 @@ def run_impl(case):
 
 # ---- generators (b) -------------------------------------------------------------------------------
 
-# how a number may end in the main streams: \relax, or a blank (since /repo c654904 the reader only peeks at the token after
-# the blank).  Digits directly followed by the closing token are still the known finding C04-number-lookahead (readSequence).
-NUMBER_ENDS = ['relax', 'relax', ' ']
+# how a number may end in the main streams: \relax, a blank (since /repo c654904 the reader only peeks at the token after the
+# blank), or nothing at all - the digits directly followed by whatever comes next, e.g. the token that closes the group (since
+# /repo 076499b readSequence leaves unexpandable tokens alone).
+NUMBER_ENDS = ['relax', 'relax', ' ', '']
+# Historical (repaired by /repo 9658874 = notes/C04/fix-3.diff): what was left of C04-number-lookahead on 076499b: digits directly followed by a *user macro* whose expansion
+# yields nothing (\def\e{} or only macros that return no tokens) and then the closer - readSequence pulls the macro through the
+# expanding iterator, which goes on to the closer.  Repaired by notes/C04/fix-3.diff (one-step expansion); set this to True once
+# that is committed: the main streams then also put uses of defined macros directly after bare digits.
+BARE_NUMBER_BEFORE_MACRO_OK = True
 
 
 class PGen(object):
@@ -874,12 +883,20 @@ class PGen(object):
         self.has_if = False
         self.has_counter = False
         self.alias = 0          # number of open scopes in which \ql is currently \let to a character
+        self.bare = False       # the previous item (in execution order) is a \\catcode whose digits are not terminated
 
     def fresh(self):
         self.vid += 1
         return self.vid
 
     def simple(self, alias_ok):
+        it = self.simple0(alias_ok)
+        if self.bare and it[0] == 'use' and not BARE_NUMBER_BEFORE_MACRO_OK:
+            it = ['probe']
+        self.bare = it[0] == 'cat' and it[3] == ''
+        return it
+
+    def simple0(self, alias_ok):
         rng = self.rng
         r = rng.random()
         if r < 0.2:
@@ -943,6 +960,7 @@ class PGen(object):
 
     def group(self, depth, in_math, in_arg, alias_visible):
         rng = self.rng
+        self.bare = False       # the token that opens a group is not expandable: it ends a number
         if rng.random() < 0.12:
             node = self.newenv(depth, in_math, in_arg, alias_visible)
             return [node, ['probe']] if rng.random() < 0.7 else [node]
@@ -995,6 +1013,10 @@ def small_progs():
     pre = [['def', 0, 90], ['gdef', 1, 91], ['probe']]
     post = [['use', 0], ['use', 1], ['probe']]
     changes += [[['cat', 64, 11, ' ']], [['def', 0, 1], ['cat', 33, 13, ' ']]]
+    for kind in kinds:          # ...=11}  ...=11\\endgroup  ...=11\\end{center}  ...=11$  ...=11\\]  \\textbf{...=11}
+        for bare in ([['cat', 64, 11, '']], [['def', 0, 1], ['probe'], ['cat', 33, 13, '']], [['cat', 64, 11, ''], ['probe']]):
+            yield dict(kind='prog', prog=pre + [['grp', kind, bare]] + post)
+            yield dict(kind='prog', prog=pre + [['grp', 'brace', [['def', 0, 80], ['grp', kind, bare], ['use', 0], ['probe']]]] + post)
     # \newenvironment-defined environments: empty / non-empty begin and end code, without / with an argument (empty, non-empty),
     # defined here or at the top, used at top level and inside an enclosing group that has its own local change
     envforms = []
@@ -1025,15 +1047,32 @@ def small_progs():
 
 # extended streams: inputs in the statement's domain on which the implementation is known to deviate (known findings)
 
-def rand_lookahead(rng):
-    """a \\catcode whose digits are directly followed (no blank, no \\relax) by the token that ends its group"""
-    kind = rng.choice(['brace', 'begingroup', 'center', 'math', 'dmath'])
+def rand_bare(rng):
+    """a \\catcode whose digits are directly followed (no blank, no \\relax) by the token that ends its group or cell"""
+    kind = rng.choice(['brace', 'begingroup', 'center', 'math', 'ddollar', 'dmath', 'textbf', 'footnote', 'tabular', 'newenv', 'newenv'])
     ch, code = rng.choice([(64, 11), (33, 11), (33, 13)])
-    body = [['probe']] if rng.random() < 0.5 else []
-    body += [['cat', ch, code, '']]      # (a blank after the digits is an ordinary input since /repo c654904)
+    body = [['def', 1, 3], ['probe']] if rng.random() < 0.5 else []
+    body += [['cat', ch, code, '']]
     if rng.random() < 0.3:
         body += [['probe']]
-    return dict(kind='prog', ext='lookahead', prog=[['probe'], ['grp', kind, body], ['probe']])
+    if kind == 'tabular':
+        node = ['tabular', [[body, [['probe']]], [[['probe']] + body]]]       # ...=11&   ...=11\\   ...=11\end{tabular}
+    elif kind == 'newenv':
+        node = rng.choice([['useenv', 0, [], [], [], body, 'here'], ['useenv', 0, body, [], [], [['probe']], 'here'],
+                           ['useenv', 0, [], body, [], [['probe']], 'top'], ['useenv', 1, [], [], body, [['probe']], 'here']])
+    else:
+        node = ['grp', kind, body]
+    prog = [['probe'], node, ['probe']]
+    if rng.random() < 0.4:
+        prog = [['probe'], ['grp', rng.choice(['brace', 'center', 'textbf']), [['def', 0, 2], ['cat', 33, 12, 'relax'], node, ['use', 0], ['probe']]], ['probe']]
+    return dict(kind='prog', prog=prog)
+
+
+def rand_lookahead(rng):
+    """what is left of C04-number-lookahead: bare digits, then a user macro whose expansion yields no token, then the closer"""
+    kind = rng.choice(['brace', 'begingroup', 'center', 'math', 'dmath'])
+    ch, code = rng.choice([(64, 11), (33, 11), (33, 13)])
+    return dict(kind='prog', ext='lookahead', prog=[['def', 0, 1], ['probe'], ['grp', kind, [['cat', ch, code, ''], ['use', 0]]], ['probe']])
 
 
 def rand_charlet(rng):
